@@ -110,6 +110,56 @@ func bdSpecHashToCurve(msg []byte) *secp256k1.PublicKey {
 }
 
 // DLEQ verification written from NUT-12 (with the hash REDUCED mod n, as in the Lean model). Returns (accept, hash>=n).
+// bdAltPoints: other ways of turning the secret into a curve point
+func bdAltPoints(secret string) map[string]*secp256k1.PublicKey {
+	out := map[string]*secp256k1.PublicKey{}
+	lift := func(x []byte) *secp256k1.PublicKey {
+		pk, err := secp256k1.ParsePubKey(append([]byte{0x02}, x...))
+		if err != nil {
+			return nil
+		}
+		return pk
+	}
+	// deprecated Cashu hash_to_curve: h = sha256(msg); until 02||h is a point: h = sha256(h)
+	{
+		h := sha256.Sum256([]byte(secret))
+		cur := h[:]
+		for i := 0; i < 1<<12; i++ {
+			if pk := lift(cur); pk != nil {
+				out["legacy-iterated-sha256"] = pk
+				break
+			}
+			n := sha256.Sum256(cur)
+			cur = n[:]
+		}
+	}
+	// NUT-00 without the domain separator
+	{
+		m := sha256.Sum256([]byte(secret))
+		for ctr := uint32(0); ctr < 1<<12; ctr++ {
+			cb := []byte{byte(ctr), byte(ctr >> 8), byte(ctr >> 16), byte(ctr >> 24)}
+			h := sha256.Sum256(append(append([]byte{}, m[:]...), cb...))
+			if pk := lift(h[:]); pk != nil {
+				out["nut00-without-domain-separator"] = pk
+				break
+			}
+		}
+	}
+	if pk, err := crypto.HashToCurve([]byte(strings.ToUpper(secret))); err == nil && strings.ToUpper(secret) != secret {
+		out["h2c-of-upper-cased-secret"] = pk
+	}
+	hs := sha256.Sum256([]byte(secret))
+	if pk, err := crypto.HashToCurve(hs[:]); err == nil {
+		out["h2c-of-sha256-of-secret"] = pk
+	}
+	if raw, err := hex.DecodeString(secret); err == nil && len(raw) > 0 {
+		if pk, err := crypto.HashToCurve(raw); err == nil {
+			out["h2c-of-hex-decoded-secret"] = pk
+		}
+	}
+	return out
+}
+
 func bdSpecVerifyDLEQ(e, s *secp256k1.PrivateKey, A, B_, C_ *secp256k1.PublicKey) (bool, bool) {
 	var eNeg secp256k1.ModNScalar
 	eNeg.NegateVal(&e.Key)
@@ -537,6 +587,15 @@ func bdTuple(i int, rng *Rng, keys *bdKeys, nonces int, seed uint64, t *bdRec) {
 		"unblind-wrong-r":  crypto.UnblindSignature(C_, rB, K),
 		"unblind-wrong-K":  crypto.UnblindSignature(C_, r, alts[0].kp.PublicKey),
 		"doubled":          bdAdd(C, C),
+	}
+	// signatures over points derived from the SAME secret in another way (the mint signs blind, so a client can obtain
+	// k*P for any point P it likes): the pre-NUT-00 hash_to_curve (iterated SHA-256, no domain separator, no counter),
+	// NUT-00's loop without the domain separator, hash_to_curve of the SHA-256 / of the upper-cased secret.
+	// Only k*hash_to_curve(secret) may be honoured (seeded change C04-7).
+	for name, P := range bdAltPoints(secret) {
+		if P != nil && !P.IsEqual(Y) {
+			wrongC["alt-derivation:"+name] = bdMul(&k.Key, P)
+		}
 	}
 	for _, v := range sortedStr(wrongC) {
 		if wrongC[v].IsEqual(C) {
